@@ -3,7 +3,7 @@
 
 A statement-level imperative-to-functional translation of the helpers of core/utils.py, of the classes
 TruthTable and TruthTableModel, and of the constructor and protocol methods of PyFunction and PyFunctionModel
-(not their static factories and PyFunctionModel.define, which build and return closures).  Every function / method of COVERED becomes `gen_<name>` (methods:
+(not their static factories and PyFunctionModel.define, which build and return closures: translator/t26_py_factories.py, built on this one, regenerates those).  Every function / method of COVERED becomes `gen_<name>` (methods:
 `gen_<Class>_<name>`); Proofs/TruthTableGen*.v prove each of them equal to the hand model Model/FuncProto.v
 (the object of the C12 theorems), so an edit of a covered body changes a generated definition and breaks an
 equality lemma.  Anything outside the grammar raises TranslatorError (the check then fails closed).  COVERED is
